@@ -104,11 +104,11 @@ MUTANTS = [
     dict(name='c11-seed2-block-zero-fill-across-segments', prop='C11', clause='D8', edits=[(CV_H, '        for (size_type i = idx; i < end_idx; ++i) {\n            // Only the last segment of the range is allocated in advance,\n            // the segments between the failed element and the last one may be not allocated yet\n            if (table[this->segment_index_of(i)].load(std::memory_order_relaxed) > this->segment_allocation_failure_tag) {\n                zero_unconstructed_elements(&this->internal_subscript(i), /*count =*/1);\n            }\n        }\n    }\n', '        if (idx < end_idx && table[this->segment_index_of(idx)].load(std::memory_order_relaxed) > this->segment_allocation_failure_tag) {\n            zero_unconstructed_elements(&this->internal_subscript(idx), /*count =*/end_idx - idx);\n        }\n    }\n')]),
     dict(name='c11-cleanup-touches-unallocated-segment', prop='C11', clause='D8', edits=[(CV_H, '        for (size_type i = idx; i < end_idx; ++i) {\n            // Only the last segment of the range is allocated in advance,\n            // the segments between the failed element and the last one may be not allocated yet\n            if (table[this->segment_index_of(i)].load(std::memory_order_relaxed) > this->segment_allocation_failure_tag) {\n                zero_unconstructed_elements(&this->internal_subscript(i), /*count =*/1);\n            }\n        }\n    }\n', '        for (size_type i = idx; i < end_idx; ++i) {\n            zero_unconstructed_elements(&this->internal_subscript(i), /*count =*/1);\n        }\n    }\n')]),
     dict(name='c05-seed2-3d-ratio-wrong-grainsize', prop='C05', clause='D2', edits=[('include/oneapi/tbb/blocked_range3d.h',
-        "            if ( my_rows.size()*double(my_cols.grainsize()) < my_cols.size()*double(my_rows.grainsize()) ) {",
-        "            if ( my_rows.size()*double(my_cols.grainsize()) < my_cols.size()*double(my_cols.grainsize()) ) {")]),
+        "               first.size()*double(second.grainsize()) < second.size()*double(first.grainsize()));",
+        "               first.size()*double(second.grainsize()) < second.size()*double(second.grainsize()));")]),
     dict(name='c05-2d-ratio-own-grainsize', prop='C05', clause='D2', edits=[('include/oneapi/tbb/blocked_range2d.h',
-        "        if ( my_rows.size()*double(my_cols.grainsize()) < my_cols.size()*double(my_rows.grainsize()) ) {",
-        "        if ( my_rows.size()*double(my_rows.grainsize()) < my_cols.size()*double(my_cols.grainsize()) ) {")]),
+        "             my_rows.size()*double(my_cols.grainsize()) < my_cols.size()*double(my_rows.grainsize())) ) {",
+        "             my_rows.size()*double(my_rows.grainsize()) < my_cols.size()*double(my_cols.grainsize())) ) {")]),
     dict(name='c06-seed2-scan-no-virtual-steal', prop='C06', clause='D4', edits=[('include/oneapi/tbb/parallel_scan.h',
         "    bool treat_as_stolen = m_is_right_child && (is_stolen(ed) || &m_body.get()!=m_parent->m_result.m_left_sum);",
         "    bool treat_as_stolen = m_is_right_child && is_stolen(ed);")]),
@@ -2050,8 +2050,8 @@ BENIGN = [
     }
 }""")]),
     dict(name='c05-b-ratio-operands-commuted', prop='C05', edits=[('include/oneapi/tbb/blocked_range2d.h',
-        "        if ( my_rows.size()*double(my_cols.grainsize()) < my_cols.size()*double(my_rows.grainsize()) ) {",
-        "        if ( double(my_cols.grainsize())*my_rows.size() < double(my_rows.grainsize())*my_cols.size() ) {")]),
+        "             my_rows.size()*double(my_cols.grainsize()) < my_cols.size()*double(my_rows.grainsize())) ) {",
+        "             double(my_cols.grainsize())*my_rows.size() < double(my_rows.grainsize())*my_cols.size()) ) {")]),
     dict(name='c11-b-snapshot-refreshed-in-wait', prop='C11', edits=[(CV_H, """                while (this->get_table()[seg_idx].load(std::memory_order_relaxed) == nullptr) {
                     backoff.pause();""", """                segment_table_type table = this->get_table();
                 while (table[seg_idx].load(std::memory_order_relaxed) == nullptr) {
